@@ -19,6 +19,22 @@ macro_rules! with_d6 {
     };
 }
 
+/// dimensions for the serde round trip: 1..6 and one far beyond a byte (the const generic D is unbounded)
+macro_rules! with_d_serde {
+    ($d:expr, $D:ident, $body:block) => {
+        match $d {
+            1 => { const $D: usize = 1; $body }
+            2 => { const $D: usize = 2; $body }
+            3 => { const $D: usize = 3; $body }
+            4 => { const $D: usize = 4; $body }
+            5 => { const $D: usize = 5; $body }
+            6 => { const $D: usize = 6; $body }
+            260 => { const $D: usize = 260; $body }
+            _ => panic!("harness: unsupported dimension"),
+        }
+    };
+}
+
 fn get_sig(j: &Value) -> Vec<Vec<isize>> {
     j["sig"].as_array().unwrap().iter()
         .map(|r| r.as_array().unwrap().iter().map(|v| v.as_i64().unwrap() as isize).collect()).collect()
@@ -130,7 +146,7 @@ fn op_serde(j: &Value) -> Value {
     let fmt = j["format"].as_str().unwrap_or("json");
     let points: Vec<Vec<f64>> = j["points"].as_array().unwrap().iter()
         .map(|p| p.as_array().unwrap().iter().map(|v| b2f(v.as_u64().unwrap())).collect()).collect();
-    with_d6!(d, D, {
+    with_d_serde!(d, D, {
         let gen = match graph_from(j).build_sampler::<D>(get_sig(j)) {
             Ok(g) => g,
             Err(msg) => return json!({"status": "err", "msg": msg}),
